@@ -49,6 +49,16 @@ def work_C14(run, rng, budget):
         ops.append([rng.choice(["parse", "norm", "write"]), s])
         for e in TG.edits(s, rng, 2):          # mostly rejected inputs: they leave the prediction cache partly filled
             ops.append(["parse", e])
+    # the writer with calc_coordinates=True (a layout computed by networkx/scipy): connected and multi-component molecules,
+    # bond-free ones, single atoms; the body must not depend on process, history or threads either
+    calc = ["H4O2/(1-5)(2-5)(3-6)(4-6)", "ClNa/", "He/", "C3/", "H2/(1-2)", "C4H2/(1-3)(2-4)(3-5)(4-6)(5-6)",
+            "C2H6O/(1-7)(2-7)(3-7)(4-8)(5-8)(6-9)(7-8)(8-9)", "C6/(1-2)(1-6)(2-3)(3-4)(4-5)(5-6)", "C2Cl2H2/(1-3)(2-4)(5-6)"]
+    for s in calc:
+        ops.append(["write_calc", s])
+    for _ in range(6 * budget):
+        s, spec = TG.gen_sentence(rng, max_count=4)
+        if sum(spec[0].values()) <= 16:
+            ops.append(["write_calc", s])
     for k, _ in ops:
         run.stats["op:" + k] += 1
     with tempfile.NamedTemporaryFile("w", suffix=".json", delete=False, dir="/tmp") as f:
@@ -96,7 +106,7 @@ def work_C14(run, rng, budget):
     finally:
         os.unlink(wl)
     run.assumptions.append("CPython's thread switching inside the ANTLR runtime, networkx and igraph is sampled, not modelled")
-    return "a workload of molfile->TUCAN, read, parse, normalise and write operations (with rejected strings interleaved) run " \
+    return "a workload of molfile->TUCAN, read, parse, normalise, write and write-with-computed-coordinates operations (with rejected strings interleaved) run " \
            "in fresh subprocesses under several PYTHONHASHSEED values and call orders, and from 8 threads with a 1 microsecond " \
            "switch interval; every result compared with the in-process result; after each call the caller scribbles on the " \
            "returned graphs (and serialises parsed graphs in place), and every operation is run a second time later in the " \
